@@ -64,16 +64,21 @@ Definition value_at (st : store) (c : cref) : value := get_cell_value (cont st c
 Definition formula_of (x : content) : option ast :=
   match x with CFormula f _ => Some f | CArrayFormula _ _ _ f _ => Some f | _ => None end.
 
-(* array_node_to_formula_value / array_node_to_spill_value / formula_value_to_spill_value:
-   NO finiteness test on numbers *)
+(* array_node_to_formula_value / array_node_to_spill_value: the two conversions every array sink of
+   set_cells_with_result goes through (dynamic anchor and spill cells, CSE anchor and cells, 1x1 coercion).
+   Since /repo e9b497e they carry the same safety belt as the scalar branch: a non-finite number is #NUM! *)
 Definition afv (s : scalar) : fvalue :=
   match s with
-  | SBool b => FBool b | SNum n => FNum n | SStr t => FText t | SErr e => FErr e
+  | SBool b => FBool b
+  | SNum n => if nis_finite N n then FNum n else FErr ENUM
+  | SStr t => FText t | SErr e => FErr e
   | SEmpty => FNum (nzero N)
   end.
 Definition asv (s : scalar) : spillv :=
   match s with
-  | SBool b => PBool b | SNum n => PNum n | SStr t => PText t | SErr e => PErr e
+  | SBool b => PBool b
+  | SNum n => if nis_finite N n then PNum n else PErr ENUM
+  | SStr t => PText t | SErr e => PErr e
   | SEmpty => PNum (nzero N)
   end.
 Definition fv_to_spill (v : fvalue) : spillv :=
@@ -162,7 +167,7 @@ Definition write (c : cref) (cell : content) (r : value) (st : store) : option s
                         (match node with Some x => asv x | None => PErr EVALUE end)))
                  (area (c_sheet c) (c_row c) (c_col c) w h) st)
         | _ =>
-            (* a plain formula produced an array: 1x1 is unwrapped (unguarded), larger is #VALUE! *)
+            (* a plain formula produced an array: 1x1 is unwrapped (through afv, guarded), larger is #VALUE! *)
             let coerced := if (aw =? 1) && (ah =? 1)
                            then match get_value_from_array a 1 1 with Some x => afv x | None => FErr EVALUE end
                            else FErr EVALUE in
